@@ -6,7 +6,7 @@ LEVEL = "exploration"
 
 
 def tasks(tier):
-    return (other_tasks("contracts.determinism_bounded", "C04", "bounded")
+    return (other_tasks("contracts.determinism_bounded", "C04", "bounded") + other_tasks("contracts.dataplane_bounded", "C04", "bounded")
             + contract_tasks("contracts.dataplane", "C04", tier=tier)
             + contract_tasks("contracts.connect", "C04", tier=tier)
             + contract_tasks("contracts.sim_process", "C04", tier=tier, names=["WaitForDependencies"]))
